@@ -262,7 +262,7 @@ def sched_stage(ctx, thorough):
             for k, (mo, ro) in enumerate(zip(c["obs"], obs)):
                 nmoves += 1
                 want = {"gates": list(mo["gates"]), "holds": list(mo["holds"]), "q": mo["q"], "mq": len(mo["mq"]), "consumed": list(mo["consumed"]), "decs": mo["decs"]}
-                got = {"gates": ro["gates"], "holds": ro["holds"], "q": ro["q"], "mq": ro["mq"], "consumed": ro.get("consumed") or [], "decs": ro["decs"]}
+                got = {"gates": ro.get("gates"), "holds": ro.get("holds"), "q": ro.get("q"), "mq": ro.get("mq"), "consumed": ro.get("consumed") or [], "decs": ro.get("decs")}
                 if want != got:
                     diff = [x for x in want if want[x] != got[x]]
                     ctx.violation("%s pipeline: replaying the TLC schedule %s (datagrams %s): after move %d (%s) the real workers are not where "
